@@ -112,6 +112,10 @@ var H struct {
 	Count  int
 	FailAt int   // 1-based invocation to fail, 0 = none
 	Cause  error // wrapped by the failing hook's error (nil = plain sentinel)
+	// Bare: the failing hook returns Cause itself, unwrapped (what `return tx.First(&ref).Error` yields)
+	Bare bool
+	// Failed is the error value the failing hook returned (nil if none failed)
+	Failed error
 	// AfterProbe: after-hooks of the parent model address "the current record" of the statement
 	// (SetColumn after a create, Changed after an update), as hooks that audit changes do; per-record
 	// dispatch must make that work in the after phase too
@@ -127,6 +131,7 @@ func ResetHooks() {
 	H.Log = nil
 	H.Count = 0
 	H.FailAt = 0
+	H.Failed = nil
 }
 
 func hook(name, typ string, ptr interface{}, payload string, tx *gorm.DB, write bool) error {
@@ -151,7 +156,12 @@ func hook(name, typ string, ptr interface{}, payload string, tx *gorm.DB, write 
 		}
 	}
 	if H.FailAt == H.Count {
-		return &ErrHook{At: H.Count, Cause: H.Cause}
+		if H.Bare && H.Cause != nil {
+			H.Failed = H.Cause
+		} else {
+			H.Failed = &ErrHook{At: H.Count, Cause: H.Cause}
+		}
+		return H.Failed
 	}
 	return nil
 }
@@ -214,7 +224,11 @@ func (o *Order) AfterFind(tx *gorm.DB) error { return hook("AfterFind", "Order",
 // IsInjected reports whether err carries one of the harness' sentinels.
 func IsHookErr(err error) bool {
 	var he *ErrHook
-	return errors.As(err, &he)
+	if errors.As(err, &he) {
+		return true
+	}
+	// a hook that failed with a bare error value: that value must be in the chain
+	return H.Failed != nil && err != nil && errors.Is(err, H.Failed)
 }
 
 // LogShape is the hook sequence without record payloads (hook:type per invocation).
